@@ -140,6 +140,9 @@ def job_list(ctx):
     levels = (3, 12) if quick else (1, 3, 12)
     strategies = ["default_ont", "default_pacbio", "all"] if quick else ["default_ont", "default_pacbio", "all", "sensitive_ont", "sensitive_pacbio", "reliable", "fl_pacbio", "assembly"]
     scen = mix.scenarios(2, levels=levels, structs=mix.STRUCTS)
+    assert set(mix.LOCUS_OF) == set(mix.STRUCTS)
+    if quick:
+        scen = [sc for sc in scen if mix.interacting(sc)]
     jobs = []
     for sc in scen:
         for annotated in (1, 0):
